@@ -592,6 +592,102 @@ Definition gsub_apply_custom (m : mode) (t : layout_table) (gd : option gdef) (s
          end ;;
   Ok (replace_missing_glyphs gs' num_glyphs).
 
+(* ------------------------------------------------------------------ Features::Mask path (gsub.rs:859-935, 1402-1623) *)
+(* A FeatureMask is a u64 bit set; bit numbers and the (bit, tag) table come from Gen/LayoutConsts.v. *)
+Fixpoint tag_bit (tbl : list (Z * Z)) (tag : Z) : option Z :=
+  match tbl with
+  | [] => None
+  | (tg, bit) :: t => if tg =? tag then Some bit else tag_bit t tag
+  end.
+
+(* FeatureMask::from_tag *)
+Definition feature_mask_from_tag (tag : Z) : Z :=
+  match tag_bit FROM_TAG tag with Some b => Z.shiftl 1 b | None => 0 end.
+
+(* FeatureMask::remove of a single-bit flag *)
+Definition mask_remove (mask bit : Z) : Z := if Z.testbit mask bit then mask - Z.shiftl 1 bit else mask.
+
+(* make_supported_features_mask: feature_by_index(index)?.feature_tag for every feature of the language system *)
+Fixpoint supported_mask (t : layout_table) (indices : list Z) (acc : Z) : outcome Z :=
+  match indices with
+  | [] => Ok acc
+  | fi :: rest =>
+    rec <- match lt_features t with Some fl => checked_nth fl fi | None => Err BadIndex end ;;
+    supported_mask t rest (Z.lor acc (feature_mask_from_tag (fst rec)))
+  end.
+
+(* get_supported_features (the cache is per LayoutCache and only memoises) *)
+Definition get_supported_features (t : layout_table) (script_tag : Z) (lang : option Z) : outcome Z :=
+  match find_script_or_default t script_tag with
+  | Some s => match find_langsys_or_default s lang with
+              | Some ls => supported_mask t (ls_features ls) 0
+              | None => Ok 0
+              end
+  | None => Ok 0
+  end.
+
+(* build_lookups_default: FEATURE_MASKS order, BTreeMap keyed by lookup index, vrt2 falls back to vert *)
+Fixpoint build_lookups_default (t : layout_table) (ls : langsys) (mask : Z) (tbl : list (Z * Z)) (mp : list (Z * Z))
+  : outcome (list (Z * Z)) :=
+  match tbl with
+  | [] => Ok mp
+  | (bit, tag) :: rest =>
+    if Z.testbit mask bit then
+      ft <- find_langsys_feature t ls tag ;;
+      match ft with
+      | Some idx => build_lookups_default t ls mask rest (bt_extend idx tag mp)
+      | None =>
+        if tag =? TAG_MASK_FALLBACK_FROM then
+          ft2 <- find_langsys_feature t ls TAG_MASK_FALLBACK_TO ;;
+          match ft2 with
+          | Some idx => build_lookups_default t ls mask rest (bt_extend idx TAG_MASK_FALLBACK_TO mp)
+          | None => build_lookups_default t ls mask rest mp
+          end
+        else build_lookups_default t ls mask rest mp
+      end
+    else build_lookups_default t ls mask rest mp
+  end.
+
+(* get_lookups_cache_index + cached_lookups[index]: index 0 is the empty list *)
+Definition lookups_for_mask (t : layout_table) (script_tag : Z) (lang : option Z) (mask : Z) : outcome (list (Z * Z)) :=
+  match find_script_or_default t script_tag with
+  | Some s => match find_langsys_or_default s lang with
+              | Some ls => build_lookups_default t ls mask FEATURE_MASKS []
+              | None => Ok []
+              end
+  | None => Ok []
+  end.
+
+(* gsub_apply_lookups_impl: the window length is threaded from lookup to lookup *)
+Fixpoint gsub_apply_lookups_impl (m : mode) (t : layout_table) (gd : option gdef) (lks : list (Z * Z))
+  (gs : list glyph) (start length : Z) : outcome (list glyph * Z) :=
+  match lks with
+  | [] => Ok (gs, length)
+  | (li, tag) :: rest =>
+    '(gs', l') <- gsub_apply_lookup m (lt_lookups t) gd li tag None gs start length ;;
+    gsub_apply_lookups_impl m t gd rest gs' start l'
+  end.
+
+(* strip_joiners *)
+Definition strip_joiners (gs : list glyph) : list glyph :=
+  filter (fun g => match g_origin g with
+                   | Some c => negb ((c =? JOINER_1) || (c =? JOINER_2))
+                   | None => true
+                   end) gs.
+
+(* gsub::apply with Features::Mask, tuple = None, a script of ScriptType::Default.  The FRAC split
+   (gsub_apply_lookups_frac) is not modelled: a mask that still contains it yields Err NotImplemented here. *)
+Definition gsub_apply_default (m : mode) (t : layout_table) (gd : option gdef) (script_tag : Z) (lang : option Z)
+  (mask : Z) (num_glyphs : Z) (gs : list glyph) : outcome (list glyph) :=
+  let mask1 := mask_remove mask MASK_BIT_REMOVED in
+  supported <- get_supported_features t script_tag lang ;;
+  let mask2 := Z.land mask1 supported in
+  if Z.testbit mask2 MASK_BIT_SPLIT then Err NotImplemented
+  else
+    lks <- lookups_for_mask t script_tag lang mask2 ;;
+    '(gs', _) <- gsub_apply_lookups_impl m t gd lks gs 0 (len gs) ;;
+    Ok (replace_missing_glyphs (strip_joiners gs') num_glyphs).
+
 (* ------------------------------------------------------------------ abstract image of the parser (read_subtables) *)
 Definition single_parses (s : single_subst) : bool :=
   match s with SingleF1 c _ => coverage_parses c | SingleF2 c _ => coverage_parses c end.
